@@ -48,10 +48,10 @@ type encSpec struct {
 	put       func(tb *val.TupleBuilder, i int, v any)
 	get       func(td *val.TupleDesc, i int, t val.Tuple) (any, bool)
 	same      func(a, b any) bool
-	cmp       func(a, b any) int    // nil: not an ordered (key) encoding
-	ordered   func(v any) bool      // nil: every value is ordered
-	toField   func(v any) any       // form expected by tree.PutField; nil: route not applicable
-	fromField func(v any) any       // normalise what tree.GetField returns; nil: identity
+	cmp       func(a, b any) int // nil: not an ordered (key) encoding
+	ordered   func(v any) bool   // nil: every value is ordered
+	toField   func(v any) any    // form expected by tree.PutField; nil: route not applicable
+	fromField func(v any) any    // normalise what tree.GetField returns; nil: identity
 	show      func(v any) string
 }
 
@@ -394,6 +394,7 @@ func c15Specs() []*encSpec {
 }
 
 type c15Run struct {
+	lim  *limiter
 	c    *rig.Ctx
 	ns   tree.NodeStore
 	pool pool.BuffPool
@@ -428,13 +429,13 @@ func (x *c15Run) checkSet(s *encSpec, vals []any, pairs func(n int, f func(i, j 
 		tupsN[i] = x.build1(tdN, s, v)
 		tupsF[i] = x.build1(tdF, s, v)
 		if !bytes.Equal(tupsN[i], tupsF[i]) {
-			c.Violation("c15/route/nullable-flag/"+s.name, "tuple bytes depend on the nullability flag of the descriptor", map[string]any{"value": s.String(v), "nullable": clip(tupsN[i]), "notnull": clip(tupsF[i])})
+			x.lim.Violation("c15/route/nullable-flag/"+s.name, "tuple bytes depend on the nullability flag of the descriptor", map[string]any{"value": s.String(v), "nullable": clip(tupsN[i]), "notnull": clip(tupsF[i])})
 		}
 		for _, td := range []*val.TupleDesc{tdN, tdF} {
 			got, ok := s.get(td, 0, tupsN[i])
 			rt++
 			if !ok || !s.same(got, v) {
-				c.Violation("c15/roundtrip/"+s.name, fmt.Sprintf("decode(encode(v)) != v for %s", s.name),
+				x.lim.Violation("c15/roundtrip/"+s.name, fmt.Sprintf("decode(encode(v)) != v for %s", s.name),
 					map[string]any{"written": s.String(v), "read": s.String(got), "ok": ok, "tuple": clip(tupsN[i]), "set": label})
 			}
 		}
@@ -445,11 +446,11 @@ func (x *c15Run) checkSet(s *encSpec, vals []any, pairs func(n int, f func(i, j 
 			}
 			rt++
 			if err != nil || got == nil || !s.same(got, v) {
-				c.Violation("c15/roundtrip-getfield/"+s.name, "tree.GetField does not return the written value", map[string]any{"written": s.String(v), "read": fmt.Sprint(got), "err": fmt.Sprint(err)})
+				x.lim.Violation("c15/roundtrip-getfield/"+s.name, "tree.GetField does not return the written value", map[string]any{"written": s.String(v), "read": fmt.Sprint(got), "err": fmt.Sprint(err)})
 			}
 		}
 		if tupsN[i].Count() != 1 {
-			c.Violation("c15/count/"+s.name, "one non-NULL field must give a tuple of count 1", map[string]any{"count": tupsN[i].Count(), "value": s.String(v)})
+			x.lim.Violation("c15/count/"+s.name, "one non-NULL field must give a tuple of count 1", map[string]any{"count": tupsN[i].Count(), "value": s.String(v)})
 		}
 	}
 	c.Count("c15.roundtrips", rt)
@@ -468,7 +469,7 @@ func (x *c15Run) checkSet(s *encSpec, vals []any, pairs func(n int, f func(i, j 
 			got := x.compare(td, tupsN[i], tupsN[j])
 			ncmp++
 			if got != want {
-				c.Violation(fmt.Sprintf("c15/order/%s", s.name), fmt.Sprintf("TupleDesc.Compare disagrees with the SQL order of %s values", s.name),
+				x.lim.Violation(fmt.Sprintf("c15/order/%s", s.name), fmt.Sprintf("TupleDesc.Compare disagrees with the SQL order of %s values", s.name),
 					map[string]any{"left": s.String(vals[i]), "right": s.String(vals[j]), "got": got, "want": want, "desc": []string{"nullable", "notnull-fast", "notnull-nofast"}[k], "set": label})
 				return
 			}
@@ -489,15 +490,15 @@ func (x *c15Run) checkSet(s *encSpec, vals []any, pairs func(n int, f func(i, j 
 			continue
 		}
 		if g := x.compare(tdN, nullT, tupsN[i]); g != -1 {
-			c.Violation("c15/null-order/"+s.name, "NULL must sort before every value", map[string]any{"value": s.String(vals[i]), "got": g})
+			x.lim.Violation("c15/null-order/"+s.name, "NULL must sort before every value", map[string]any{"value": s.String(vals[i]), "got": g})
 		}
 		if g := x.compare(tdN, tupsN[i], nullT); g != 1 {
-			c.Violation("c15/null-order/"+s.name, "every value must sort after NULL", map[string]any{"value": s.String(vals[i]), "got": g})
+			x.lim.Violation("c15/null-order/"+s.name, "every value must sort after NULL", map[string]any{"value": s.String(vals[i]), "got": g})
 		}
 		ncmp += 2
 	}
 	if g := x.compare(tdN, nullT, nullT); g != 0 {
-		c.Violation("c15/null-order/"+s.name, "NULL must compare equal to NULL", map[string]any{"got": g})
+		x.lim.Violation("c15/null-order/"+s.name, "NULL must compare equal to NULL", map[string]any{"got": g})
 	}
 	c.Count("c15.compares", ncmp)
 }
@@ -512,7 +513,7 @@ func c15(c *rig.Ctx) {
 	c.Assume("DECIMAL NaN/Inf forms (Doltgres) and negative zero are not SQL DECIMAL values: NaN/Inf round-tripped only, -0 not generated")
 	c.Assume("collated comparisons are driven with valid UTF-8 only; model = go-mysql-server StringType.Compare")
 	c.Assume("JSONEnc/GeometryEnc are value-only encodings (no comparator): round trip only; Extended* encodings need a Doltgres handler and are not driven; adaptive encodings belong to C16")
-	x := &c15Run{c: c, ns: tree.NewTestNodeStore(), pool: pool.NewBuffPool()}
+	x := &c15Run{c: c, ns: tree.NewTestNodeStore(), pool: pool.NewBuffPool(), lim: newLimiter(c, "c15.further_violations_same_key")}
 	specs := c15Specs()
 	byName := map[string]*encSpec{}
 	for _, s := range specs {
@@ -546,11 +547,11 @@ func c15(c *rig.Ctx) {
 			rig.Must(err)
 			ts[i] = t
 			if g, ok := td.GetBool(0, t); !ok || g != b {
-				c.Violation("c15/roundtrip/bool", "bool does not round-trip", map[string]any{"written": b, "read": g})
+				x.lim.Violation("c15/roundtrip/bool", "bool does not round-trip", map[string]any{"written": b, "read": g})
 			}
 		}
 		if x.compare(td, ts[0], ts[1]) != -1 || x.compare(td, ts[1], ts[0]) != 1 {
-			c.Violation("c15/order/bool", "false must sort before true", nil)
+			x.lim.Violation("c15/order/bool", "false must sort before true", nil)
 		}
 		c.Count("c15.roundtrips", 2)
 	}
@@ -576,7 +577,7 @@ func c15(c *rig.Ctx) {
 				f((i+1)%nv, i)
 				u := uint16(i)
 				f(i, int(u<<8|u>>8)) // byte-swapped image: catches endianness slips
-				f(i, int(u^0x8000)) // sign-bit image
+				f(i, int(u^0x8000))  // sign-bit image
 				f(i, int(u^0x0080))
 			}
 			for k := 0; k < np; k++ {
@@ -734,7 +735,7 @@ func c15Tuples(x *c15Run, specs []*encSpec) {
 					got := x.compare(dsc, tups[i], tups[j])
 					n++
 					if got != want {
-						c.Violation("c15/order/tuple", "TupleDesc.Compare disagrees with the field-wise SQL comparison (NULL first)",
+						x.lim.Violation("c15/order/tuple", "TupleDesc.Compare disagrees with the field-wise SQL comparison (NULL first)",
 							map[string]any{"shape": shape.String(), "left": c15RowString(fields, rows[i]), "right": c15RowString(fields, rows[j]), "got": got, "want": want, "fixed_access": k == 0})
 						break
 					}
@@ -814,7 +815,7 @@ func c15Routes(x *c15Run, td *val.TupleDesc, fields []c15Field, row []any, r *ra
 	for name, t := range routes {
 		c.Count("c15.route_identity_checks", 1)
 		if !bytes.Equal(t, t0) {
-			c.Violation("c15/route/"+name, "tuples built from the same values through different routes are not byte-identical",
+			x.lim.Violation("c15/route/"+name, "tuples built from the same values through different routes are not byte-identical",
 				map[string]any{"row": c15RowString(fields, row), "typed": clip(t0), name: clip(t)})
 		}
 	}
@@ -826,26 +827,26 @@ func c15Routes(x *c15Run, td *val.TupleDesc, fields []c15Field, row []any, r *ra
 		}
 	}
 	if t0.Count() != last+1 {
-		c.Violation("c15/trailing-null", "the NULL suffix of a tuple must be dropped and the field count reduced",
+		x.lim.Violation("c15/trailing-null", "the NULL suffix of a tuple must be dropped and the field count reduced",
 			map[string]any{"row": c15RowString(fields, row), "count": t0.Count(), "want": last + 1, "tuple": clip(t0)})
 	}
 	if last < nf-1 {
 		c.Count("c15.trailing_null_trims", 1)
 	}
 	if last == -1 && !bytes.Equal(t0, val.EmptyTuple) {
-		c.Violation("c15/trailing-null", "an all-NULL tuple must be the empty tuple", map[string]any{"tuple": clip(t0)})
+		x.lim.Violation("c15/trailing-null", "an all-NULL tuple must be the empty tuple", map[string]any{"tuple": clip(t0)})
 	}
 	// field round trip inside the multi-field tuple
 	for i, f := range fields {
 		got, ok := f.s.get(td, i, t0)
 		if row[i] == nil {
 			if ok || !td.IsNull(i, t0) {
-				c.Violation("c15/roundtrip-null", "a NULL field does not read back as NULL", map[string]any{"row": c15RowString(fields, row), "field": i})
+				x.lim.Violation("c15/roundtrip-null", "a NULL field does not read back as NULL", map[string]any{"row": c15RowString(fields, row), "field": i})
 			}
 			continue
 		}
 		if !ok || !f.s.same(got, row[i]) {
-			c.Violation("c15/roundtrip/"+f.s.name, "field of a multi-field tuple does not round-trip",
+			x.lim.Violation("c15/roundtrip/"+f.s.name, "field of a multi-field tuple does not round-trip",
 				map[string]any{"row": c15RowString(fields, row), "field": i, "read": f.s.String(got)})
 		}
 	}
@@ -902,11 +903,11 @@ func c15Collations(x *c15Run) {
 					ties++
 				}
 				if got != sign(want) {
-					c.Violation("c15/order/collation/"+coll.Name(), "collated StringEnc comparison disagrees with go-mysql-server's StringType.Compare",
+					x.lim.Violation("c15/order/collation/"+coll.Name(), "collated StringEnc comparison disagrees with go-mysql-server's StringType.Compare",
 						map[string]any{"left": words[i], "right": words[j], "got": got, "want": sign(want)})
 				}
 				if dc := sign(val.CompareCollatedStrings(coll, []byte(words[i]), []byte(words[j]))); dc != sign(want) {
-					c.Violation("c15/order/collation-func/"+coll.Name(), "val.CompareCollatedStrings disagrees with go-mysql-server's StringType.Compare",
+					x.lim.Violation("c15/order/collation-func/"+coll.Name(), "val.CompareCollatedStrings disagrees with go-mysql-server's StringType.Compare",
 						map[string]any{"left": words[i], "right": words[j], "got": dc, "want": sign(want)})
 				}
 			}
